@@ -108,4 +108,23 @@ PROPS = {
             "the parallel index assignment (rayon par_iter_mut) is modelled as one atomic set_entry_idx step; relaxed atomics are read only after the parallel section has joined",
         ],
     },
+    "C10": {
+        "theorems": "JubakoModel.Theorems.C10",
+        "harness": "c10",
+        "profiles": ["debug"],
+        "rule": "one case = one logical container (1..6 (quick) / 1..12 (thorough) entries with names, numbers and contents over 1..3 content packs; compression none/zstd/lz4/lzma) written in the three packagings; per packaging: as created; re-assembled by tools::concat in every order of its files (all permutations up to 4 files; 4 sampled in quick); the concatenated file placed next to damaged copies of the separately located pack files (lookup order); one-file containers embedded after prefixes of 0/1/63/64/4096/random bytes; every arrangement dumped through reader::Container and by the Lean containerOpen; non-trivial = more than 3 arrangements",
+        "assumptions": [
+            "the file system is modelled as a flat directory of regular files; locations are plain relative file names (what BasicCreator records)",
+            "HashMap iteration order of ContainerPack::packs only matters when a container holds two manifest packs, which the creator never produces",
+        ],
+    },
+    "C11": {
+        "theorems": "JubakoModel.Theorems.C11",
+        "harness": "c11",
+        "profiles": ["debug"],
+        "rule": "one case = one container with 1..4 content packs of which 1..4 live in their own files (TwoFiles / NoConcat / OneFile + extra packs); for every subset of those files (all subsets; sampled beyond 8 in quick) each file of the subset is removed, replaced by a directory, or replaced by a valid content pack of another container; the container is dumped through reader::Container (contents of unavailable packs must read 'missing' with the pack's uuid and location) and checked, and dumped by the Lean containerOpen/containerGetPack; non-trivial = at least one separately located pack",
+        "assumptions": [
+            "a file that exists at the location but is not a Jubako pack at all makes locate return an error (not 'missing'); not in the property's quantifier and not generated",
+        ],
+    },
 }
